@@ -22,7 +22,7 @@ def st(key):
             return "PASS" if "PASS" in l else "FAIL"
     return "?"
 meta = {"id": sid, "breaks_property": prop, "needs_to_manifest": needs,
-        "origin": "fresh sub-agent (round 2) given only the property text and a scratch worktree of /repo",
+        "origin": "fresh sub-agent (round " + os.environ.get("ROUND", "4") + ") given only the property text and a scratch worktree of /repo",
         "confirmed": {"cmd": f"tools/seeded_verify.sh <id> patch.diff {demo_dst} {pkg} {pat}",
                       "suite_with_change": st("suite with change"), "demo_with_change": st("demo with change"),
                       "demo_without_change": st("demo without change")},
